@@ -247,8 +247,37 @@ def r10_5(prog, rep):
         if isinstance(comp, ast.Call) and dotted(comp.func) in ("dict.fromkeys", "list", "tuple") and len(comp.args) == 1:
             comp = comp.args[0]
         stores_ = [e for e in ex.effects if e[0] == "store" and e[1][0] == f"{container}.slices"]
+        extra_bind = {}
+        if isinstance(comp, (ast.DictComp, ast.ListComp, ast.GeneratorExp)) and len(comp.generators) == 1 \
+                and isinstance(comp.generators[0].target, ast.Tuple) and isinstance(comp.generators[0].iter, ast.Call) \
+                and dotted(comp.generators[0].iter.func) == "zip" and len(comp.generators[0].iter.args) == len(comp.generators[0].target.elts) \
+                and all(isinstance(t_, ast.Name) for t_ in comp.generators[0].target.elts):
+            # for t, w in zip(<the terms>, <a list filled once per iteration of the slice loop>): w is what that iteration appended
+            g0 = comp.generators[0]
+            aliases = {unparse(st.targets[0]): st.value.id for st in body if isinstance(st, ast.Assign) and len(st.targets) == 1
+                       and isinstance(st.targets[0], ast.Name) and isinstance(st.value, ast.Name)}
+            first = None
+            ok_zip = True
+            for t_, a_ in zip(g0.target.elts, g0.iter.args):
+                if M["coll"](a_) == M["it"] or (isinstance(a_, ast.Name) and any(
+                        isinstance(st, ast.Assign) and unparse(st.targets[0]) == a_.id and M["coll"](st.value.args[0] if isinstance(st.value, ast.Call)
+                                                                                               and dotted(st.value.func) in ("list", "tuple") and st.value.args else st.value) == M["it"]
+                        for st in body if isinstance(st, ast.Assign) and len(st.targets) == 1)):
+                    first = t_.id
+                    continue
+                nm = aliases.get(a_.id, a_.id) if isinstance(a_, ast.Name) else None
+                apps_ = [e for e in ex.effects if e[0] == "call" and e[1][0] == f"{nm}.append" and e[2] == () and len(e[1][1]) == 1] if nm else []
+                if len(apps_) != 1:
+                    ok_zip = False
+                    break
+                extra_bind[t_.id] = SX.render(apps_[0][1][1][0])
+            if ok_zip and first is not None:
+                import copy as _copy2
+                comp = _copy2.deepcopy(comp)
+                comp.generators[0].target = ast.Name(id=first, ctx=ast.Store())
+                comp.generators[0].iter = [a_ for t_, a_ in zip(g0.target.elts, g0.iter.args) if t_.id == first][0]
         if not (isinstance(comp, (ast.DictComp, ast.ListComp, ast.GeneratorExp)) and len(comp.generators) == 1 and isinstance(comp.generators[0].target, ast.Name)
-                and M["coll"](comp.generators[0].iter) == M["it"] and len(stores_) == 1 and isinstance(stores_[0][1][2], SX.Slice)):
+                and (M["coll"](comp.generators[0].iter) == M["it"] or extra_bind) and len(stores_) == 1 and isinstance(stores_[0][1][2], SX.Slice)):
             rep.defer(f"R10.5: `{L}` is not built in the slice loop nor by a comprehension over the same terms after it ({q})")
             return
         g = comp.generators[0]
@@ -265,6 +294,8 @@ def r10_5(prog, rep):
             def visit_Name(self, n):
                 if n.id == g.target.id:
                     return ast.copy_location(ast.Name(id=tv, ctx=n.ctx), n)
+                if n.id in extra_bind and isinstance(n.ctx, ast.Load):
+                    return ast.parse(extra_bind[n.id], mode="eval").body
                 return n
 
         conds = [ToIter().visit(_copy.deepcopy(c)) for c in g.ifs]
@@ -293,7 +324,14 @@ def r10_5(prog, rep):
                         w = SX.add(v.hi, v.lo, -1)
                         sides.add("new" if (w is not None and SX.width_of(w, arr)) else f"other `{txt}`")
                     else:
-                        sides.add(f"`{txt}`")
+                        wv = fresh.val(side)
+                        try:
+                            if isinstance(wv, SX.Ite):
+                                wv = SX.mk_ite(wv.cond, SX.add(wv.a, SX.Lin(0)) or wv.a, SX.add(wv.b, SX.Lin(0)) or wv.b)
+                            direct = SX.width_of(wv, arr)
+                        except Exception:  # noqa: BLE001
+                            direct = False
+                        sides.add("new" if direct else f"`{txt}`")
         unique = isinstance(comp, ast.DictComp) or (isinstance(d[0].value, ast.Call) and dotted(d[0].value.func) == "dict.fromkeys")
         obl(rep, f, d[0], "R10.5", len(conds) == 1 and sides == {"old", "new"} and unique,
             "a factor is reported iff the training slice width of the SAME term differs from its new width, once per factor",
